@@ -1778,9 +1778,10 @@ def multi_strategy(tier: str):
 # --------------------------------------------------------------------------
 
 CERT_USER, CERT_HOST = 1, 2
-EXT_ORDER = ['permit-X11-forwarding', 'permit-agent-forwarding',
-             'permit-port-forwarding', 'permit-pty', 'permit-user-rc',
-             'no-touch-required']
+# PROTOCOL.certkeys: extensions "must be lexically ordered by name"
+EXT_ORDER = ['no-touch-required', 'permit-X11-forwarding',
+             'permit-agent-forwarding', 'permit-port-forwarding',
+             'permit-pty', 'permit-user-rc']
 EXT_ARGS = {'permit-X11-forwarding': 'permit_x11_forwarding',
             'permit-agent-forwarding': 'permit_agent_forwarding',
             'permit-port-forwarding': 'permit_port_forwarding',
@@ -2680,7 +2681,10 @@ def run_cert_signed(case, tmp, ca: Mat, subject: Mat, labels, sig) -> None:
     if c['type'] == 'host':
         args.append('-h')
     else:
-        for name in EXT_ORDER[:5]:
+        for name in EXT_ORDER:
+            if name == 'no-touch-required':
+                continue
+
             if c['ext'].get(name, True):
                 options[name] = True
             else:
